@@ -21,13 +21,16 @@ OPS = "+*-"
 NAMES = {"+": "p", "*": "m", "-": "s"}
 
 
-def grammar(k, pmarks, tmarks, nmark=False, layout=False):
+def grammar(k, pmarks, tmarks, nmark=False, layout=False, rule_level=False):
     ops = OPS[:k]
-    alts = [f"E {NAMES[o]} E" + (" {dynamic}" if pm else "")
+    # rule_level: every production is marked - written once in the rule's
+    # own meta-data block instead of on each production
+    alts = [f"E {NAMES[o]} E" + (" {dynamic}" if pm and not rule_level else "")
             for o, pm in zip(ops, pmarks)]
     # the atom production is reduced in conflict-free states
-    lines = ["E: " + " | ".join(alts) + " | n" + (" {dynamic}" if nmark else "")
-             + ";"]
+    lines = ["E" + (" {dynamic}" if rule_level else "") + ": "
+             + " | ".join(alts) + " | n"
+             + (" {dynamic}" if nmark and not rule_level else "") + ";"]
     if layout:
         # a LAYOUT rule makes the parser run a sub-parser between tokens;
         # the filter belongs to the main parse only
@@ -60,6 +63,10 @@ def units(tier, seed):
             if k == 2:
                 out.append(dict(k=k, maxops=min(3, row["maxops"]),
                                 marks=list(marks[i]), layout=True))
+            if all(marks[i][:k]) and marks[i][2 * k]:
+                # all productions marked: also spelled on the rule level
+                out.append(dict(k=k, maxops=row["maxops"],
+                                marks=list(marks[i]), rule_level=True))
     return out
 
 
@@ -217,7 +224,7 @@ def run_unit(u):
     pmarks, tmarks = u["marks"][:k], u["marks"][k:2 * k]
     nmark = u["marks"][2 * k]
     layout = bool(u.get("layout"))
-    text = grammar(k, pmarks, tmarks, nmark, layout)
+    text = grammar(k, pmarks, tmarks, nmark, layout, bool(u.get("rule_level")))
 
     def inp(s):
         # with a LAYOUT rule: layout before, between and after the tokens
@@ -228,7 +235,8 @@ def run_unit(u):
     ops = OPS[:k]
     exprs = ["".join(t) for t in expressions(ops, u["maxops"], depth=0)]
     cfg = f"k{k}/" + "".join("1" if m else "0" for m in u["marks"]) + (
-        "/layout-rule" if layout else "")
+        "/layout-rule" if layout else "") + (
+        "/rule-level" if u.get("rule_level") else "")
     gk = text
 
     def case(kind, s, filt):
